@@ -10,7 +10,7 @@
 From Coq Require Import List NArith Bool Lia ZifyN ZifyNat ZifyBool Arith.
 From Frugal Require Import Bytes Wire Skip Values Desc Spec Decode Checks.
 From Frugal.gen Require Import Params.
-From Frugal.proofs Require Import BytesWire EncodeSpec SkipPut DecodeSafe DecodeRefines.
+From Frugal.proofs Require Import BytesWire EncodeSpec SkipPut DecodeSafe DecodeRefines ParamsSplit.
 Import ListNotations.
 Open Scope N_scope.
 
@@ -250,7 +250,7 @@ Qed.
 (* Part A.  The skipper                                                 *)
 (* ================================================================== *)
 
-(* params_ok fixes gk_size on a list of sample codes only; soundness needs
+(* dec_params_ok fixes gk_size on a list of sample codes only; soundness needs
    to know that NO other code has a positive size in the skipper's table *)
 Definition gk_tab_ok : bool :=
   forallb (fun kv : N * N =>
@@ -282,7 +282,7 @@ Definition sk_sound (sk : N -> list N -> sres) : Prop :=
   forall t bs n, sk t bs = SOk n -> n <= len bs -> bytes_ok bs = true -> is_put n t bs.
 
 Section SkipSound.
-  Hypothesis HP : params_ok = true.
+  Hypothesis HP : dec_params_ok = true.
   Hypothesis HG : gk_tab_ok = true.
 
   Lemma gk_size_pos_inv : forall t, 0 < gk_size t -> In t scalar_codes /\ gk_size t = min_size t.
@@ -626,7 +626,7 @@ Section DecSound.
   Variable env : senv.
   Variable fuel : nat.
   Variable pool : list N.
-  Hypothesis HP : params_ok = true.
+  Hypothesis HP : dec_params_ok = true.
   Hypothesis HE : env_ok env = true.
   Hypothesis HG : gk_tab_ok = true.
 
@@ -695,7 +695,7 @@ Section DecSound.
 
   Lemma wt_strlike : forall t, is_strlike t = true -> wt t = cSTRING.
   Proof.
-    intros t H. destruct (codes_eqs HP) as (_ & _ & _ & _ & _ & _ & _ & E7 & _).
+    intros t H. destruct (codes_eqs (dec_enc HP)) as (_ & _ & _ & _ & _ & _ & _ & E7 & _).
     unfold is_strlike in H. rewrite <- wt_deref.
     destruct (deref_ty t); try discriminate H; exact E7.
   Qed.
@@ -768,7 +768,7 @@ Section DecSound.
         /\ ab_elems (absorb env) env e es = AOk xs /\ v = VL (Some xs).
     Proof.
       intros e bs v rest b H Hok Hb. destruct (hdr_eqs HP) as (_ & _ & Hh & _).
-      pose proof (wt_lt128 HP e) as H128. apply N.ltb_lt in H128.
+      pose proof (wt_lt128 (dec_enc HP) e) as H128. apply N.ltb_lt in H128.
       unfold dec_list in H. rewrite Hh in H.
       destruct (short bs 5); [discriminate H|].
       destruct bs as [|tp r]; [discriminate H|].
@@ -832,8 +832,8 @@ Section DecSound.
         /\ ab_entries (absorb env) env kt vt es [] = AOk m /\ v = VM (Some m).
     Proof.
       intros kt vt bs v rest H Hk Hv Hb. destruct (hdr_eqs HP) as (_ & Hh & _ & _).
-      pose proof (wt_lt128 HP kt) as K128. apply N.ltb_lt in K128.
-      pose proof (wt_lt128 HP vt) as V128. apply N.ltb_lt in V128.
+      pose proof (wt_lt128 (dec_enc HP) kt) as K128. apply N.ltb_lt in K128.
+      pose proof (wt_lt128 (dec_enc HP) vt) as V128. apply N.ltb_lt in V128.
       unfold dec_map in H. rewrite Hh in H.
       destruct (short bs 6); [discriminate H|].
       destruct bs as [|t0 [|t1 r]]; try discriminate H.
@@ -888,7 +888,7 @@ Section DecSound.
         /\ seen' = sn ++ seen
         /\ forall sa, ab_fields (absorb env) sd fs cur sa unk = AOk (cur', sn ++ sa, unk').
     Proof.
-      intros sd Hsd. destruct (codes_eqs HP) as (E0 & _).
+      intros sd Hsd. destruct (codes_eqs (dec_enc HP)) as (E0 & _).
       induction fl as [|fl IH]; intros bs cur seen unk cur' seen' unk' rest H Hb.
       - rewrite dec_fields_O in H. discriminate H.
       - rewrite dec_fields_S in H.
@@ -998,7 +998,7 @@ Section DecSound.
 
   Lemma decode_sound_d : forall d, struct_sound d /\ dt_sound (decode_type env fuel pool d).
   Proof.
-    destruct (codes_eqs HP) as (E0 & E1 & E2 & E3 & E4 & E5 & E6 & E7 & E8 & E9 & E10 & E11).
+    destruct (codes_eqs (dec_enc HP)) as (E0 & E1 & E2 & E3 & E4 & E5 & E6 & E7 & E8 & E9 & E10 & E11).
     induction d as [|d [IHs IHt]].
     - split.
       + intros sd bs prior v rest _ H. rewrite decode_struct_O in H. discriminate H.
@@ -1047,7 +1047,7 @@ End DecSound.
 
 (* with the side condition on the skipper's table explicit *)
 Theorem decode_sound_gen : forall env pool sid bs dst v n rest,
-  params_ok = true -> gk_tab_ok = true -> env_ok env = true -> bytes_ok bs = true ->
+  dec_params_ok = true -> gk_tab_ok = true -> env_ok env = true -> bytes_ok bs = true ->
   decode_object env pool sid bs dst = DOk (v, n) rest ->
   exists fs, wf (WStruct fs []) = true /\ bs = put (WStruct fs []) ++ rest
              /\ n = len (put (WStruct fs []))
@@ -1070,7 +1070,7 @@ Qed.
 (* C05, soundness: success means the input begins with a well-formed message,
    the count is its length, and the value is the reference decoder's *)
 Theorem decode_sound : forall env pool sid bs dst v n rest,
-  params_ok = true -> env_ok env = true -> bytes_ok bs = true ->
+  dec_params_ok = true -> env_ok env = true -> bytes_ok bs = true ->
   decode_object env pool sid bs dst = DOk (v, n) rest ->
   exists fs, wf (WStruct fs []) = true /\ bs = put (WStruct fs []) ++ rest
              /\ n = len (put (WStruct fs []))
@@ -1082,7 +1082,7 @@ Qed.
 
 (* value level: any slot type, any budget, any fuel *)
 Theorem decode_type_sound : forall env fuel pool d t bs prior v rest,
-  params_ok = true -> env_ok env = true -> ty_ok env t = true -> bytes_ok bs = true ->
+  dec_params_ok = true -> env_ok env = true -> ty_ok env t = true -> bytes_ok bs = true ->
   decode_type env fuel pool d t bs prior = DOk v rest ->
   exists w, wf w = true /\ code_of w = wt t /\ bs = put w ++ rest
             /\ absorb env t w prior = AOk v.
@@ -1093,7 +1093,7 @@ Proof.
 Qed.
 
 (* the skipper, stand-alone *)
-Theorem skip_sound : params_ok = true ->
+Theorem skip_sound : dec_params_ok = true ->
   forall d t bs n, skip_type d t bs = SOk n -> n <= len bs -> bytes_ok bs = true ->
   exists w, wf w = true /\ code_of w = t /\ firstn (N.to_nat n) bs = put w.
 Proof.
